@@ -54,10 +54,12 @@ TPanic == Step("panic") /\ UNCHANGED <<avars, scen, lv>> /\ Flag("C03/panic")
 \* a connection announces the identity of an older one: from the moment its registration starts the older one may be let go
 TAttachCall == Step("attach_call") /\ UNCHANGED <<avars, scen, obs, how, relR, relW, lastFault, obsAtCall, incall, mayErr, faulted, final>> /\ NoFlag /\
    super' = (IF Has(E, "announced") THEN super \cup {c \in conn : ident[c] = E.announced} ELSE super)
-Ignored == {"peer_part", "attach_pending", "recv_call", "recv_pending", "recv_dropped", "send_pending", "send_dropped", "end", "expect_wire", "sub_call", "sub_ret",
+\* a message the socket should have written to a connection by now has not arrived there
+TExpectWire == Step("expect_wire") /\ UNCHANGED <<avars, scen, lv>> /\ (IF E.ok THEN NoFlag ELSE Flag("C16/healthy-connection-not-served:" \o stype))
+Ignored == {"peer_part", "attach_pending", "recv_call", "recv_pending", "recv_dropped", "send_pending", "send_dropped", "end", "sub_call", "sub_ret",
             "sub_pending", "harness_error"}
 TIgnore == l <= NRec /\ E.ev \in Ignored /\ l' = l + 1 /\ UNCHANGED <<avars, scen, lv>> /\ NoFlag
-TNext == TReset \/ TAttachCall \/ TAttachRet \/ TWrote \/ TBytes \/ TCut \/ TPipe \/ TObserved \/ TReleased \/ TRecvRet \/ TSendCall \/ TSendRet \/ TWire \/ TQuiescent \/ TPanic \/ TIgnore
+TNext == TReset \/ TExpectWire \/ TAttachCall \/ TAttachRet \/ TWrote \/ TBytes \/ TCut \/ TPipe \/ TObserved \/ TReleased \/ TRecvRet \/ TSendCall \/ TSendRet \/ TWire \/ TQuiescent \/ TPanic \/ TIgnore
 TSpec == TInit /\ [][TNext]_tvars
 Accepted == Consumed
 =============================================================================
